@@ -810,6 +810,13 @@ def evaluate(check, case, cases_out, use_oracle=True):
     key = (case['driver'], case['inp'], case['outp'], case['request'], case['fn'], tuple(map(tuple, case['beh'])),
            tuple(sorted(obs['steps'].items())), obs['result'])
     check.count(key)
+    st = check.extra.setdefault('coverage_table', {})
+    for k in (['driver=' + case['driver'], 'protocols=%s->%s' % (case['inp'], case['outp']), 'request=' + case['request'],
+               'fn=' + case['fn'], 'result=%s' % (obs['result'],), 'alphabet=%s' % in_alphabet(case)]
+              + ['step %s raised %s' % kv for kv in sorted(obs['steps'].items())]
+              + ['listener raised at %s (%s)' % (i[1], i[4]) for i in obs['items'] if i[0] != 'func' and i[4]
+                 and any((l, i[1]) in {(b[0], b[1]) for b in case['beh']} for l in i[3][-1:])]):
+        st[k] = st.get(k, 0) + 1
     if use_oracle and in_alphabet(case):
         for clause, msg in oracle(case, obs):
             check.fail('C14|%s|%s' % (label(case, obs), clause),
